@@ -19,15 +19,18 @@ Open Scope N_scope.
 Theorem C10_decode_encode_with : forall c v r, wf v = true -> len_ok v = true ->
   decode (fuel_for (encode_with c v ++ r)) (encode_with c v ++ r) = DOk (v, r).
 Proof. exact decode_encode_with. Qed.
+Print Assumptions C10_decode_encode_with.
 
 Theorem C10_decode_encode_with_fuel : forall v c, wf v = true -> len_ok v = true ->
   forall f r, (2 * length (encode_with c v) <= f)%nat -> decode f (encode_with c v ++ r) = DOk (v, r).
 Proof. exact decode_encode_with_fuel. Qed.
+Print Assumptions C10_decode_encode_with_fuel.
 
 (* the canonical encoder is the instance "no choice made", so the loose encoder really ranges over
    alternatives to what isomdl itself would emit *)
 Theorem C10_canonical_is_an_instance : forall v, encode_with ch_default v = encode v.
 Proof. exact encode_with_default. Qed.
+Print Assumptions C10_canonical_is_an_instance.
 
 (* ---------- Tag24 ---------- *)
 
@@ -35,35 +38,42 @@ Proof. exact encode_with_default. Qed.
 Theorem C10_tag24_preserved : forall inner r, wf_bytes inner = true -> blen inner < two64 ->
   tag24_decode (tag24_encode inner ++ r) = Some inner.
 Proof. exact tag24_preserved. Qed.
+Print Assumptions C10_tag24_preserved.
 
 (* re-emission is D8 18, shortest byte-string head, the bytes; and it is a fixed point *)
 Theorem C10_tag24_emitted_shape : forall inner, tag24_encode inner = [216; 24] ++ head 2 (blen inner) ++ inner.
 Proof. exact tag24_encode_shape. Qed.
+Print Assumptions C10_tag24_emitted_shape.
 
 Theorem C10_tag24_fixed_point : forall inner, wf_bytes inner = true -> blen inner < two64 ->
   option_map tag24_encode (tag24_decode (tag24_encode inner)) = Some (tag24_encode inner).
 Proof. exact tag24_fixed_point. Qed.
+Print Assumptions C10_tag24_fixed_point.
 
 (* any framing of the OUTER item is accepted with the same embedded bytes *)
 Theorem C10_tag24_any_outer_framing : forall c inner r, wf_bytes inner = true -> blen inner < two64 ->
   tag24_decode (encode_with c (tag24 inner) ++ r) = Some inner.
 Proof. exact tag24_any_outer. Qed.
+Print Assumptions C10_tag24_any_outer_framing.
 
 (* the typed view of a Tag24<T> is the typed reading of the kept bytes, nothing else *)
 Theorem C10_view_is_decoding : forall (T : Type) (rd : bytes -> option T) bs inner t,
   tag24_decode_as rd bs = Some (inner, t) <-> tag24_decode bs = Some inner /\ rd inner = Some t.
 Proof. exact @tag24_view_is_decoding. Qed.
+Print Assumptions C10_view_is_decoding.
 
 (* for every value and every producer choice: the view is the value ... *)
 Theorem C10_any_encoding : forall c v r, wf v = true -> len_ok v = true ->
   view (encode_with c v ++ r) = Some v.
 Proof. exact view_any_encoding. Qed.
+Print Assumptions C10_any_encoding.
 
 (* ... and what is kept and re-emitted are the producer's bytes, not a re-encoding of the view *)
 Theorem C10_keeps_producer_bytes : forall c v r,
   wf_bytes (encode_with c v) = true -> blen (encode_with c v) < two64 ->
   tag24_decode (tag24_encode (encode_with c v) ++ r) = Some (encode_with c v).
 Proof. exact tag24_keeps_producer_bytes. Qed.
+Print Assumptions C10_keeps_producer_bytes.
 
 (* ---------- IssuerSignedItem: any encoding, any key order, any unknown extra entries ---------- *)
 
@@ -74,6 +84,7 @@ Theorem C10_item_any_encoding : forall it es extras c r,
   keys_def (ch_sub c) es ->                  (* named hypothesis: map KEYS have definite length *)
   read_item (encode_with c (CMap es) ++ r) = Some it.
 Proof. exact read_item_any_encoding. Qed.
+Print Assumptions C10_item_any_encoding.
 
 Theorem C10_tag24_item_any_encoding : forall it es extras c r,
   item_cbor_ok it -> Forall extra_ok extras -> Permutation es (item_entries it ++ extras) ->
@@ -82,6 +93,7 @@ Theorem C10_tag24_item_any_encoding : forall it es extras c r,
   tag24_decode_as read_item (tag24_encode (encode_with c (CMap es)) ++ r)
   = Some (encode_with c (CMap es), it).
 Proof. exact tag24_item_any_encoding. Qed.
+Print Assumptions C10_tag24_item_any_encoding.
 
 (* without that hypothesis the statement is false: an indefinite-length KEY is refused (not altered) *)
 Theorem C10_item_any_encoding_refuted :
@@ -91,17 +103,21 @@ Theorem C10_item_any_encoding_refuted :
   read_item (encode_with c (CMap (item_entries it))) = None /\
   read_item (encode_with ch_default (CMap (item_entries it))) = Some it.
 Proof. exact item_indefinite_key_refused. Qed.
+Print Assumptions C10_item_any_encoding_refuted.
 
 Theorem C10_item_order_insensitive : forall es es', Permutation es es' -> item_of_entries es = item_of_entries es'.
 Proof. exact item_of_entries_perm. Qed.
+Print Assumptions C10_item_order_insensitive.
 
 Theorem C10_item_unknown_ignored : forall es ex,
   Forall (fun e => known_key (fst e) = false) ex -> item_of_entries (es ++ ex) = item_of_entries es.
 Proof. exact item_of_entries_extra. Qed.
+Print Assumptions C10_item_unknown_ignored.
 
 Theorem C10_item_duplicate_refused : forall k es v1 v2 rest, known_key k = true ->
   Permutation es ((k, v1) :: (k, v2) :: rest) -> item_of_entries es = None.
 Proof. exact item_of_entries_dup. Qed.
+Print Assumptions C10_item_duplicate_refused.
 
 (* ---------- issuerAuth: protected bytes, payload, signature, x5chain ---------- *)
 
@@ -113,6 +129,7 @@ Theorem C10_cose_received : forall v c, sign1_of_cbor v = COk c ->
     (forall k, core_label k = false -> map_get k (c_unprotected c) = map_get k (c_unprotected c0)) /\
     cose_normal c.
 Proof. exact sign1_received. Qed.
+Print Assumptions C10_cose_received.
 
 (* decode . encode of each holder is the identity on what it holds *)
 Theorem C10_cose_preserved :
@@ -120,10 +137,12 @@ Theorem C10_cose_preserved :
   (forall x r, is_ok x -> is_decode (is_encode x ++ r) = Some x) /\
   (forall d, doc_ok d -> doc_parse (doc_stringify d) = Some d).
 Proof. exact (conj sign1_roundtrip (conj is_roundtrip doc_stringify_parse)). Qed.
+Print Assumptions C10_cose_preserved.
 
 (* coset re-derives the unprotected header; doing so twice changes nothing *)
 Theorem C10_unprotected_normal_form_stable : forall kvs u, hdr_norm kvs = HOk u -> hdr_norm u = HOk u.
 Proof. exact hdr_norm_idem. Qed.
+Print Assumptions C10_unprotected_normal_form_stable.
 
 (* ---------- any number of cycles ---------- *)
 
@@ -131,6 +150,7 @@ Theorem C10_cycles :
   (forall n d, doc_ok d -> iter_opt n doc_cycle d = Some d) /\
   (forall n x, is_ok x -> iter_opt n is_cycle x = Some x).
 Proof. exact (conj doc_cycles is_cycles). Qed.
+Print Assumptions C10_cycles.
 
 (* ---------- device storage: Mdoc -> Document ---------- *)
 
@@ -138,9 +158,11 @@ Theorem C10_storage_sound : forall id md ns m eid inner,
   In (ns, m) (d_ns (doc_of_mdoc id md)) -> In (eid, inner) m ->
   exists items, In (ns, items) (md_ns md) /\ In inner items /\ eid = id_of inner.
 Proof. exact storage_sound. Qed.
+Print Assumptions C10_storage_sound.
 
 Theorem C10_storage_auth : forall id md, d_auth (doc_of_mdoc id md) = md_auth md.
 Proof. exact storage_auth. Qed.
+Print Assumptions C10_storage_auth.
 
 Theorem C10_storage_complete : forall id md ns items inner,
   In (ns, items) (md_ns md) -> Forall item_ok items ->
@@ -148,6 +170,7 @@ Theorem C10_storage_complete : forall id md ns items inner,
   In inner items ->
   exists m, In (ns, m) (d_ns (doc_of_mdoc id md)) /\ In (id_of inner, inner) m.
 Proof. exact storage_complete. Qed.
+Print Assumptions C10_storage_complete.
 
 (* without it the statement is false: the earlier of two items with one identifier is dropped *)
 Theorem C10_storage_complete_refuted :
@@ -155,15 +178,18 @@ Theorem C10_storage_complete_refuted :
        In (ns, items) (md_ns md) -> Forall item_ok items -> In inner items ->
        exists m, In (ns, m) (d_ns (doc_of_mdoc id md)) /\ In (id_of inner, inner) m).
 Proof. exact storage_complete_refuted. Qed.
+Print Assumptions C10_storage_complete_refuted.
 
 (* ---------- the response ---------- *)
 
 Theorem C10_response_items_held : forall d sel m ns l x,
   is_ns (response_issuer_signed d sel) = Some m -> In (ns, l) m -> In x l -> held d ns x.
 Proof. exact response_items_held. Qed.
+Print Assumptions C10_response_items_held.
 
 Theorem C10_response_auth : forall d sel, is_auth (response_issuer_signed d sel) = d_auth d.
 Proof. exact response_auth. Qed.
+Print Assumptions C10_response_auth.
 
 (* received Mdoc -> Document -> n Stringify cycles -> response -> transfer -> reader's IssuerSigned *)
 Theorem C10_end_to_end : forall id md n sel d' r,
@@ -177,6 +203,7 @@ Theorem C10_end_to_end : forall id md n sel d' r,
   (forall m ns l x, is_ns resp = Some m -> In (ns, l) m -> In x l ->
      exists items, In (ns, items) (md_ns md) /\ In x items).
 Proof. exact end_to_end. Qed.
+Print Assumptions C10_end_to_end.
 
 (* ---------- digests and the issuer signature input ---------- *)
 
@@ -187,11 +214,13 @@ Theorem C10_digests_stable : forall n d, doc_ok d ->
   d_ns d' = d_ns d /\ auth_components (d_auth d') = auth_components (d_auth d) /\
   issuer_tbs (d_auth d') = issuer_tbs (d_auth d).
 Proof. exact digest_input_stable. Qed.
+Print Assumptions C10_digests_stable.
 
 (* the digest input determines the embedded bytes: any change of them changes the input *)
 Theorem C10_digest_input_injective : forall a b, bytes_ok a -> bytes_ok b ->
   digest_input a = digest_input b -> a = b.
 Proof. exact tag24_encode_injective. Qed.
+Print Assumptions C10_digest_input_injective.
 
 (* ---------- non-vacuity ---------- *)
 
